@@ -14,7 +14,7 @@ from ..common import Check, Mismatch, blame
 PROPERTY = "C03"
 RULE = ("op-list histories (<=25 steps, thorough 40) over <=5 small datasets (half of the histories give some datasets identity or affine "
         "world coordinates, whose own pixel<->world links then take part in every closure): add_link (one-way, two-way with inverse, identity, two-input, "
-        "LinkSame, LinkTwoWay; cycles and diamonds arise), remove_link, add stored/derived component, remove_component, append/remove/"
+        "LinkSame, LinkTwoWay; cycles and diamonds arise; singly, as a list, or by set_links replacing the registry), remove_link (one or a list), add stored/derived component, remove_component, append/remove/"
         "re-append dataset, and bracketed groups inside dc.delay_link_manager_update() or hub.delay_callbacks(). Oracle: link-closure "
         "model (hyper-edges incl. inverses and every dataset's internal links; least-fixpoint depth; admissible value sets along "
         "minimum-depth links; exact arithmetic). Non-trivial = history has a removal followed by an addition and some dataset reads an "
@@ -202,10 +202,57 @@ class World:
         return names[ci % len(names)]
 
     def add_link(self, kind, a, b, a2, f):
+        made = self.make_link(kind, a, b, a2, f)
+        if made is None:
+            return False
+        self.register([made])
+        self.dc.add_link(made[0])
+        return True
+
+    def register(self, made):
+        for link, entry in made:
+            self.model.links.append(entry)
+            self.real_links[entry["id"]] = link
+        self.mark_add()
+
+    def add_links(self, specs):
+        """several links handed over as one list"""
+        made = [m for m in (self.make_link(*sp) for sp in specs) if m is not None]
+        self.register(made)
+        self.dc.add_link([m[0] for m in made])
+        return bool(made)
+
+    def remove_links(self, idxs):
+        if not self.model.links:
+            return False
+        picked = []
+        for i in idxs:
+            L = self.model.links[i % len(self.model.links)]
+            if not any(L is x for x in picked):
+                picked.append(L)
+        self.model.links = [L for L in self.model.links if not any(L is x for x in picked)]
+        self.dc.remove_link([self.real_links.pop(L["id"]) for L in picked])
+        self.removal = True
+        return True
+
+    def set_links(self, keep_bits, specs):
+        """replace the whole registry: a subset of the current links plus new ones"""
+        kept = [L for k, L in enumerate(self.model.links) if (keep_bits >> (k % 8)) & 1]
+        if len(kept) < len(self.model.links):
+            self.removal = True
+        made = [m for m in (self.make_link(*sp) for sp in specs) if m is not None]
+        kept_real = [self.real_links[L["id"]] for L in kept]
+        self.model.links = list(kept)
+        self.real_links = {L["id"]: r for L, r in zip(kept, kept_real)}
+        self.register(made)
+        self.dc.set_links(kept_real + [m[0] for m in made])
+        return True
+
+    def make_link(self, kind, a, b, a2, f):
         from glue.core.component_link import ComponentLink
         from glue.core.link_helpers import LinkSame, LinkTwoWay
         if a is None or b is None or a == b or a.split(".")[0] == b.split(".")[0]:
-            return False
+            return None
         lid = self.model.next_link
         self.model.next_link += 1
         ca, cb = self.cid[a], self.cid[b]
@@ -227,7 +274,7 @@ class World:
             if a2 is None or a2.split(".")[0] != a.split(".")[0] or a2 == a:
                 a2 = a.split(".")[0] + ".pix" if not a.endswith(".pix") else None
             if a2 is None or a2 == a or a2 not in self.cid:
-                return False
+                return None
             if f[0] not in ("add", "sub"):
                 f = ["add"]
             link = ComponentLink([ca, self.cid[a2]], cb, using=make_callable(f))
@@ -246,11 +293,7 @@ class World:
         mentions = set()
         for frm, to, _ in edges:
             mentions |= set(frm) | {to}
-        self.model.links.append({"id": lid, "edges": edges, "mentions": mentions})
-        self.real_links[lid] = link
-        self.dc.add_link(link)
-        self.mark_add()
-        return True
+        return link, {"id": lid, "edges": edges, "mentions": mentions}
 
     def remove_link(self, i):
         if not self.model.links:
@@ -362,6 +405,12 @@ class World:
             return self.add_link(op[1], self.pick_attr(op[2], op[3]), self.pick_attr(op[4], op[5]), self.pick_attr(op[2], op[6]), op[7])
         if k == "unlink":
             return self.remove_link(op[1])
+        if k == "links":
+            return self.add_links([(sp[1], self.pick_attr(sp[2], sp[3]), self.pick_attr(sp[4], sp[5]), self.pick_attr(sp[2], sp[6]), sp[7]) for sp in op[1]])
+        if k == "unlinks":
+            return self.remove_links(op[1])
+        if k == "setlinks":
+            return self.set_links(op[1], [(sp[1], self.pick_attr(sp[2], sp[3]), self.pick_attr(sp[4], sp[5]), self.pick_attr(sp[2], sp[6]), sp[7]) for sp in op[2]])
         if k == "addcomp":
             return self.add_component(op[1], op[2], None, None)
         if k == "addderived":
@@ -483,6 +532,9 @@ simple_op = st.one_of(
     st.tuples(st.just("link"), st.sampled_from(KINDS), idx, idx, idx, idx, idx, fn_spec),
     st.tuples(st.just("link"), st.sampled_from(KINDS), idx, idx, idx, idx, idx, fn_spec),
     st.tuples(st.just("unlink"), idx),
+    st.deferred(lambda: st.tuples(st.just("links"), st.lists(link_op, min_size=1, max_size=3))),
+    st.tuples(st.just("unlinks"), st.lists(idx, min_size=1, max_size=2)),
+    st.deferred(lambda: st.tuples(st.just("setlinks"), st.integers(0, 255), st.lists(link_op, max_size=2))),
     st.tuples(st.just("addcomp"), idx, idx),
     st.tuples(st.just("addderived"), idx, idx, idx, fn_spec),
     st.tuples(st.just("rmcomp"), idx, idx),
